@@ -88,7 +88,11 @@ def d2_text(ctx):
         # loops / comprehensions that parse floats from lines
         parse_sites = []
         for c in walk(f):
-            if isinstance(c, ast.Call) and call_name(c) == 'map' and c.args and unparse(c.args[0]) == 'float':
+            is_map = isinstance(c, ast.Call) and call_name(c) == 'map' and c.args and unparse(c.args[0]) == 'float'
+            # the same conversion written as a comprehension over the fields of one line: [float(x) for x in line.split()]
+            is_comp = isinstance(c, (ast.ListComp, ast.GeneratorExp)) and len(c.generators) == 1 and isinstance(c.elt, ast.Call) and unparse(c.elt.func) == 'float' \
+                and isinstance(c.generators[0].iter, ast.Call) and call_name(c.generators[0].iter) == 'split'
+            if is_map or is_comp:
                 lp = m.parents.get(c)
                 while lp is not None and not isinstance(lp, (ast.For, ast.ListComp, ast.GeneratorExp)):
                     lp = m.parents.get(lp)
